@@ -217,21 +217,19 @@ class _Interp2d:
         fxy = self._intp([x], [y])[0]
         if not np.isnan(fxy):
             return fxy
-        if x < self._xmin:
-            if y < self._ymin:
-                return self._intp([self._xmin], [self._ymin])[0]
-            if y > self._ymax:
-                return self._intp([self._xmin], [self._ymax])[0]
-            return self._intp([self._xmin], [y])[0]
-        if x > self._xmax:
-            if y < self._ymin:
-                return self._intp([self._xmax], [self._ymin])[0]
-            if y > self._ymax:
-                return self._intp([self._xmax], [self._ymax])[0]
-            return self._intp([self._xmax], [y])[0]
-        if y < self._ymin:
-            return self._intp([x], [self._ymin])[0]
-        return self._intp([x], [self._ymax])[0]
+        # outside the table: clamp to the nearest edge
+        xc = min(max(x, self._xmin), self._xmax)
+        yc = min(max(y, self._ymin), self._ymax)
+        fxy = self._intp([xc], [yc])[0]
+        for eps in [1e-12, 1e-10, 1e-8]:
+            if not np.isnan(fxy):
+                break
+            # a point exactly on the edge may be placed just outside the
+            # convex hull by the triangulation: move it marginally inwards
+            xe = xc + eps * (0.5 * (self._xmin + self._xmax) - xc)
+            ye = yc + eps * (0.5 * (self._ymin + self._ymax) - yc)
+            fxy = self._intp([xe], [ye])[0]
+        return fxy
 
 
 class _ComponentMeta(type):
